@@ -54,7 +54,8 @@ CHECKS["C03"] = (
     "(duplicate / empty non-nullable value rejected with UniqueIndexDuplicateError, missing entity as not-found), and that afterwards the entity fields and the "
     "raw unique-index and set-index buckets hold exactly what the successor state implies (no stale, extra or empty keys). One step from every valid state "
     "covers histories of any length over these bounds. Plus: a child-store entity and a plain one with arbitrary role sets; delete or role rewrite of the child "
-    "entity through either store leaves the parent's indexes exact.",
+    "entity through either store leaves the parent's indexes exact; and transactions of 2 (quick) / 3 (thorough) operations (create / update / delete with "
+    "symbolic slots and names: value reuse after delete and swaps inside one transaction), accepted iff the model accepts each in turn, rolled back as a whole otherwise.",
     BASE_NOTE + "bbolt = mbolt model (validated against bbolt; rollback on error holds by construction and is assumed of bbolt). The three index kinds are "
     "checked in separate harnesses with the other fields fixed. Outside: longer values, more entities, set members that are empty strings.",
     "6/C03")
@@ -161,9 +162,11 @@ CHECKS["C09"] = (
     "entry / stale entry of the nullable index pointing at an entity whose field is null; set index: missing member, extra member, member of a missing entity, empty key, non-bucket key; fk: missing back-reference, missing back-reference "
     "bucket, extra back-reference, back-reference of a missing entity, dangling nullable reference; links: one-sided either way, dangling): check mode reports it, "
     "marks nothing fixed and leaves the logical content unchanged; one fix run reports it and an immediate re-check is clean with unique/set indexes, "
-    "back-references and links again mirroring the entities.",
+    "back-references and links again mirroring the entities. Second harness (fixed population): every class together with a second, ghost entry of each of the four "
+    "families (same family: keys adjacent to the first one's), the fix run issued first in its transaction or after the transaction already wrote to the index "
+    "buckets: both are reported and one fix run converges.",
     BASE_NOTE + "Logical content = every key/value and every non-empty bucket (the code creates empty field/index buckets lazily, also on read paths). "
-    "One corruption at a time in quick. Genuine conflicts (duplicate unique values) are not injected yet.",
+    "Pairs of corruptions are exercised on a fixed population only; larger subsets and genuine conflicts (duplicate unique values) are not injected.",
     "6/C09")
 CHECKS["C15"] = (
     "Parent store + child store (plain and Extended), 2 slots each absent / plain parent / parent+child with symbolic names and child field; one symbolic "
